@@ -26,6 +26,11 @@ CHECKS["C04"] = dict(
    text="Theorems in coq/theories/Props/C04.v over an abstract commutative ring: for gate lists of ANY length whose gates are valid and whose parameters satisfy their algebraic facts (h*h+h*h=1, c*c+s*s=1, U^dagger U = I, |e^{i phi}|=1), run_ops (the fold of Operator::apply that Circuit::execute performs) preserves <a|b> for all vectors a,b, is linear, keeps norm 1; each documented inverse pair (S/Sdag, T/Tdag, P/RX/RY/RZ with negated angle, ry_phase/ry_phase_dag, self-inverse H X Y Z CNOT SWAP Toffoli) with the same controls restores the state. Includes SWAP (basis permutation) and the Matchgate 4x4 block (two-level pairing). The correspondence executes random circuits up to 60 (thorough 400) gates on 1-8(10) qubits through the real crate and evaluates linearity, isometry and round trips in Coq on the implementation's outputs; failing circuits are shrunk.",
    note="Partial for the clause 'deviation bounded by accumulated rounding': the drift is checked numerically against a tolerance scaled with circuit length, not proved (no Flocq error analysis). libm values enter as harness-computed inputs whose algebraic facts are the theorem's hypotheses.",
    design="6 C04")
+CHECKS["C08"] = dict(
+   technique="Coq proof (PauliString.apply = coefficient x row of the Kronecker product of its Pauli matrices, for every storage order; SumOp = sum of terms, empty = zero; expectation = <psi|H psi>; operator overloads) + differential correspondence evaluated inside coqc, incl. rebuilt insertion orders",
+   text="Theorems in coq/theories/Props/C08.v over an abstract commutative ring, for every register size, every string with factors on distinct in-range qubits stored in ANY order (the HashMap is an association list under an arbitrary permutation), every coefficient and amplitude vector: apply returns coefficient * prod_q sigma_q[bit_q k][bit_q(k xor mask)] * psi[k xor mask] (each factor phase proved to be the single non-zero entry of that row of the 2x2 Pauli matrix); the result is independent of the order; an out-of-range factor is an error; SumOp.apply is the term-wise sum (zero vector when empty); expectation_value = inner_product(state, apply(state)); scaling / adding strings and sums commute with application. The correspondence runs every string on 1-3(4) qubits and random ones to 7(10), sums of 0-12(40) terms, all arithmetic overloads (read back and compared with the model's transform) through the real crate, with the model run in the order the real map iterated and the order-free Spec, and each string rebuilt in 4 other insertion orders in fresh maps.",
+   note="Not yet proved: 'expectation is real for real coefficients' and hermitian_conjugate adjointness (both are exercised numerically by the correspondence through complex coefficients / hconj read-back). Float rounding not modelled (1e-12).",
+   design="6 C08")
 NOT_YET = {}
 
 def main():
